@@ -22,6 +22,7 @@ import shutil
 import subprocess
 import sys
 import tempfile
+import time
 from concurrent.futures import ThreadPoolExecutor
 from pathlib import Path
 
@@ -33,7 +34,11 @@ GENERATED = common.LEAN_DIR / "Generated" / "C07Sites.lean"
 _SCAN = None
 
 DEFAULTS = dict(search="CBO", sm="ET", acq="UCBd", mps="cl_max", design="random", cond=False, nobj=1, moo="Chebyshev",
-                acq_opt="auto", transfer="none", mode="asktell", fail=False, space="mixed", seed=1, seed_type="int")
+                acq_opt="auto", transfer="none", mode="asktell", fail=False, space="mixed", seed=1, seed_type="int",
+                # ff = filter_failures policy; fail_at = indices of evaluations that fail ("late" failures, after the initial
+                # design); again = rounds in which ask is called a second time before the tell; inproc = several searches
+                # built from ONE problem object in one process before any of them runs (seq | interleaved), twins = how many
+                ff="min", fail_at=[], again=[], inproc="none", twins=2)
 N_INIT = 4
 OPTION_KEYS = list(DEFAULTS)
 
@@ -102,42 +107,57 @@ def nondefault(cfg):
 
 def spine(thorough=False):
     """hand-picked configurations: every value of every axis at least once, the known families first; unusual seeds
-    (0 is falsy!) and a small all-discrete space with string categories for every search class"""
-    S = [
+    (0 is falsy!), a small all-discrete space with string categories, the Optimizer.update_next routes and searches
+    sharing one problem object.  Q = quick and thorough, T = thorough only (quick budget ~90 s)."""
+    Q = [
         dict(acq="MES"),
         dict(search="REGEVO", batches=[2, 2, 2, 1, 2, 2]),
         dict(),
-        dict(seed=0),
-        dict(space="small", seed=0),
+        dict(seed=0, design="sobol"),
+        dict(space="small", seed=0, acq="gp_hedged", mps="qUCBd"),
         dict(search="RS", space="small", seed=0, mode="search"),
-        dict(search="REGEVO", space="small", seed=0),
-        dict(sm="RF", acq="MESd", mps="qUCB", design="sobol", batches=[3, 1, 3, 1]),
-        dict(search="REGEVO", cond=True, batches=[3, 3, 1, 1, 2]),
-        dict(search="RS", mode="search", batches=[4, 3, 2]),
+        dict(search="REGEVO", space="small", seed=0, cond=True),
+        # Optimizer.update_next routes: a told batch that only holds ignored failures; ask again before any tell
+        dict(ff="ignore", fail_at=[4, 6], batches=[2, 2, 1, 1, 1, 1, 2]),
+        dict(again=[2, 3], batches=[2, 2, 1, 2, 1], mps="cl_min"),
+        # several searches built from the SAME problem object before any of them runs
+        dict(search="RS", inproc="seq", twins=3, mode="search", batches=[3, 3]),
+        dict(search="REGEVO", inproc="seq", batches=[2, 2, 2, 2, 2]),
+        dict(cond=True, inproc="interleaved", batches=[2, 2, 2, 1]),
+        dict(sm="RF", acq="MESd", mps="qUCB", design="lhs", batches=[3, 1, 3, 1]),
         dict(search="RS", cond=True, seed=2 ** 32 - 1),
-        dict(sm="RF", acq="EI", mps="qUCB", design="sobol", nobj=2, moo="Linear"),
+        dict(sm="RF", acq="EI", mps="cl_mean", nobj=2, moo="Linear", fail=False, seed=2 ** 31 - 1),
         dict(sm="GP", acq="UCB", mps="cl_min", design="halton"),
         dict(sm="GP", acq="gp_hedge", mps="cl_mean", cond=True, batches=[3, 1, 3, 1]),
-        dict(acq="gp_hedged", mps="qUCBd", design="lhs", space="small"),
         dict(sm="TB", acq="PId", mps="boltzmann", design="grid"),
         dict(acq="EId", mps="topk", design="hammersly", batches=[4, 3, 2]),
-        dict(sm="RS", acq="PI", cond=True, nobj=2, moo="AugChebyshev"),
         dict(mode="search", fail=True, batches=[4, 3, 2]),
         dict(nobj=2, moo="PBI", cond=True, batches=[2, 2, 1, 1, 1, 3]),
+        dict(search="EDS", design="halton", batches=[4, 3, 2]),
+        dict(sm="DUMMY", seed=0),
+        dict(acq="MES", nobj=2, cond=True, mps="cl_mean", moo="AugChebyshev"),
+    ]
+    T = [
+        dict(seed=0),
+        dict(space="small", seed=0),
+        dict(search="REGEVO", space="small", seed=0),
+        dict(search="REGEVO", cond=True, batches=[3, 3, 1, 1, 2]),
+        dict(search="RS", mode="search", batches=[4, 3, 2]),
+        dict(sm="RF", acq="EI", mps="qUCB", design="sobol", nobj=2, moo="Linear"),
+        dict(acq="gp_hedged", mps="qUCBd", design="lhs", space="small"),
+        dict(sm="RS", acq="PI", cond=True, nobj=2, moo="AugChebyshev"),
         dict(sm="RF", acq="UCB", mps="cl_min", nobj=2, moo="Quadratic", seed=2 ** 31 - 1),
         dict(sm="RF", acq="EI", mps="cl_mean", fail=True, cond=True),
         dict(search="EDS", design="sobol"),
-        dict(search="EDS", design="halton", batches=[4, 3, 2]),
-        dict(search="EDS", design="hammersly", cond=True, batches=[4, 3, 2]),
-        dict(sm="DUMMY", seed=0),
+        dict(search="EDS", design="hammersly", batches=[4, 3, 2]),
         dict(transfer="gmm"),
         dict(sm="GP", acq="EI", acq_opt="lbfgs", batches=[1, 1, 1, 1, 1, 1, 1]),
-        dict(acq="MES", nobj=2, cond=True, mps="cl_mean"),
         dict(sm="GBRT", acq="UCB"),
         dict(sm="HGBRT", acq="EI"),
     ]
+    S = list(Q)
     if thorough:
-        S += stress_set()
+        S += T + stress_set()
         for search in ("CBO", "RS", "REGEVO", "EDS"):
             for sd in UNUSUAL_SEEDS:
                 S.append(dict(search=search, seed=sd))
@@ -165,6 +185,35 @@ def stress_set():
         dict(space="small", search="EDS", design="grid", n_points=14),
         dict(seed=0), dict(seed=0, search="RS"), dict(seed=0, search="REGEVO"), dict(seed=0, space="small", search="REGEVO"),
     ]
+    S += update_next_set() + same_problem_set()
+    return S
+
+
+def update_next_set():
+    """the two routes into Optimizer.update_next on a fitted optimizer"""
+    return [
+        dict(ff="ignore", fail_at=[4, 6], batches=[2, 2, 1, 1, 1, 1, 2]),
+        dict(ff="ignore", fail_at=[4, 5, 8], batches=[2, 2, 2, 2, 1, 2], mps="qUCB", sm="RF", acq="EI"),
+        dict(ff="ignore", fail_at=[5, 7], batches=[1] * 10, mode="search", cond=True),
+        dict(ff="ignore", fail_at=[4], batches=[2, 2, 1, 2, 2], space="small"),
+        dict(again=[2, 3], batches=[2, 2, 1, 2, 1], mps="cl_min"),
+        dict(again=[2], batches=[2, 2, 1, 1, 1], acq="gp_hedge", sm="GP", n_points=48),
+        dict(again=[1, 3], batches=[2, 2, 2, 2], cond=True, mps="topk"),
+        dict(again=[2, 4], batches=[2, 2, 2, 2, 2, 2], space="small", mps="qUCBd"),
+        dict(again=[2], ff="ignore", fail_at=[6], batches=[2, 2, 1, 1, 2], nobj=2),
+    ]
+
+
+def same_problem_set():
+    """two / three searches built from one HpProblem object before any of them runs, run in sequence and interleaved"""
+    S = []
+    for search in ("RS", "REGEVO", "CBO", "EDS"):
+        bs = [2, 2, 2, 2, 2] if search == "REGEVO" else [2, 2, 2, 1]
+        S.append(dict(search=search, inproc="seq", batches=bs))
+        S.append(dict(search=search, inproc="interleaved", cond=True, batches=bs))
+        S.append(dict(search=search, inproc="seq", twins=3, mode="search", cond=(search == "CBO"), batches=bs))
+    S.append(dict(inproc="interleaved", space="small", cond=True))
+    S.append(dict(inproc="interleaved", cond=True, nobj=2, mps="qUCB"))
     return S
 
 
@@ -215,6 +264,10 @@ def random_cfg(rng, allow_ga=False):
 
 def configs_for_site(site):
     """configurations that reach a site: the product of its conditions' values (first 6), flat and conditional"""
+    if site.kind == "shared-state":
+        return [full(c) for c in same_problem_set()]
+    if "update_next" in site.func:
+        return [full(c) for c in update_next_set()]
     out = [{}]
     for k, vals in site.conds:
         out = [dict(c, **{k: v}) for c in out for v in vals]
@@ -240,6 +293,7 @@ class Runner:
         self.tmp = Path(tempfile.mkdtemp(prefix="c07_"))
         self.pool = ThreadPoolExecutor(max_workers=min(16, os.cpu_count() or 4))
         self.launched = 0
+        self.times = []
 
     def close(self):
         self.pool.shutdown(wait=True, cancel_futures=True)
@@ -251,6 +305,7 @@ class Runner:
                    OPENBLAS_NUM_THREADS="1", MKL_NUM_THREADS="1", PYTHONWARNINGS="ignore", PYTHONDONTWRITEBYTECODE="1")
         env.pop("PYTHONPATH", None)
         envarg = {"perturb": perturb, "log_dir": str(d / f"logs_{tag}"), "cwd": str(d / f"cwd_{tag}")}
+        t0 = time.time()
         try:
             p = subprocess.run([sys.executable, "-W", "ignore", CHILD, json.dumps(cfg), json.dumps(envarg)],
                                capture_output=True, text=True, env=env, timeout=600, cwd=str(self.tmp))
@@ -258,6 +313,7 @@ class Runner:
             raise HarnessError(f"C07 child timed out (600 s) on {common.canon(cfg)}")
         finally:
             shutil.rmtree(d, ignore_errors=True)
+            self.times.append((round(time.time() - t0, 1), nondefault(full(cfg))))
         lines = [l for l in p.stdout.strip().splitlines() if l.startswith("{")]
         if not lines:
             raise HarnessError(f"C07 child printed no result for {common.canon(cfg)}: rc={p.returncode} {p.stderr[-600:]}")
@@ -303,30 +359,52 @@ def model_request(cfg):
                 estimatorByName=cfg["sm"] in ("GP", "DUMMY"), cfgSpace=bool(cfg["cond"]), design=cfg["design"] != "random",
                 mes=cfg["acq"] in ("MES", "MESd"), hedge=cfg["acq"].startswith("gp_hedge"), moo=cfg["nobj"] == 2,
                 pymoo=cfg["acq_opt"] in ("ga", "mixedga"))
-    ops, told = [], 0
+    ops, told, evals = [], 0, 0
     n_init = N_INIT if cfg["search"] != "EDS" else 10 ** 6
     pop = 5
-    for n in cfg["batches"]:
-        if search == "REGEVO":
-            ops.append(["ask", n, told >= pop, False])
+    fail_at, again = set(cfg["fail_at"]), set(cfg["again"]) if cfg["mode"] == "asktell" else set()
+    for k, n in enumerate(cfg["batches"]):
+        fitted = told >= n_init and cfg["sm"] != "DUMMY"
+        asks = 2 if k in again else 1
+        for j in range(asks):
+            if j == 1 and search == "CBO":
+                ops.append(["refresh", fitted])  # ask again before any tell -> Optimizer.update_next
+            if search == "REGEVO":
+                ops.append(["ask", n, told >= pop, False])
+            else:
+                ops.append(["ask", n, fitted, not fitted])
+        idx = list(range(evals, evals + n * asks))
+        evals += n * asks
+        ok = [i for i in idx if not (i in fail_at and cfg["ff"] == "ignore")]
+        told += len(ok)
+        if search == "CBO" and not ok:
+            ops.append(["refresh", fitted])  # nothing told (only ignored failures) -> Optimizer.update_next
         else:
-            fitted = told >= n_init and cfg["sm"] != "DUMMY"
-            ops.append(["ask", n, fitted, not fitted])
-        told += n
-        ops.append(["tell", search == "CBO" and told >= n_init and cfg["sm"] != "DUMMY"])
+            ops.append(["tell", search == "CBO" and told >= n_init and cfg["sm"] != "DUMMY"])
     return {"op": "search", "opts": opts, "ops": ops}
 
 
 # --------------------------------------------------------------------------- failure analysis
 
 
-def diagnose_and_shrink(ck, R, cfg):
-    """which hidden input, and the smallest configuration (towards DEFAULTS) that still differs"""
+def twins_bad(res):
+    """searches built from one problem object in one process did not propose the same sequence"""
+    return any(t != res["props"] for t in res.get("twins", []))
+
+
+def diagnose_and_shrink(ck, R, cfg, mode="pair"):
+    """which hidden input, and the smallest configuration (towards DEFAULTS) that still differs.
+    mode "pair": two fresh interpreters differ;  mode "twins": the in-process searches of ONE interpreter differ."""
     def differs(c, vary=("hash", "globals")):
+        if mode == "twins":
+            f = R.submit(c, 1, 3, "a")
+            return f, f
         fa, fb = R.pair(c, vary)
         return fa, fb
 
     def settle(pairs):
+        if mode == "twins":
+            return [twins_bad(a.result()) for a, _ in pairs]
         return [observable(a.result()) != observable(b.result()) for a, b in pairs]
 
     # 1. shrink options: single resets in parallel, then the combination
@@ -361,6 +439,9 @@ def diagnose_and_shrink(ck, R, cfg):
         if bad:
             cur = dict(cur, batches=p)
             break
+    if mode == "twins":
+        ra = differs(cur)[0].result()
+        return cur, ["sharedState"], ra, {"status": ra["status"], "props": ra["twins"][0] if ra.get("twins") else [], "error": ra.get("error", "")}
     # 3. which hidden input
     kinds = {"osEntropy": (), "hashSeed": ("hash",), "globalRng": ("globals",)}
     res = settle([differs(cur, v) for v in kinds.values()])
@@ -406,7 +487,7 @@ def shrink_seeds_same(R, cfg):
 
 def fingerprint_seeds_same(cfg):
     nd = {k: v for k, v in nondefault(cfg).items() if k != "search"}
-    opts = ",".join(f"{k}={nd[k]}" for k in sorted(nd)) or "defaults"
+    opts = ",".join(f"{k}={'yes' if isinstance(nd[k], list) else nd[k]}" for k in sorted(nd)) or "defaults"
     return f"C07|seeds-same|{SEARCH_CLASS[cfg['search']]}.ask|{opts}"
 
 
@@ -416,7 +497,7 @@ def fingerprint(clause, hidden_sites, cfg):
     else:
         site = "unknown-site"
     nd = nondefault(cfg)
-    opts = ",".join(f"{k}={nd[k]}" for k in sorted(nd)) or "defaults"
+    opts = ",".join(f"{k}={'yes' if isinstance(nd[k], list) else nd[k]}" for k in sorted(nd)) or "defaults"
     return f"C07|{clause}|{site}|{opts}"
 
 
@@ -508,7 +589,7 @@ def run(ck):
                     add(c, "reaches-offending-site")
             for c in spine(ck.thorough):
                 add(c, "spine")
-            for _ in range(ck.pick(4, 230)):
+            for _ in range(ck.pick(3, 230)):
                 add(random_cfg(ck.rng, allow_ga=ck.thorough), "random")
             if ck.thorough:
                 for ao in ("ga", "mixedga"):
@@ -516,21 +597,28 @@ def run(ck):
                     add(dict(acq_opt=ao, acq="MES", n_points=32, batches=[2, 2, 1, 1], cond=(ao == "mixedga")), "spine")
 
             futs, differing, seeds_same = [], {}, []
-            for c, origin in todo:
+            for i, (c, origin) in enumerate(todo):
                 fa, fb = R.pair(c)
                 c2 = dict(c, seed=other_seed(c["seed"]))
-                futs.append((c, origin, fa, fb, R.submit(c2, 1, 3, "c")))
+                with_other_seed = ck.thorough or i % 3 == 0 or c["search"] == "EDS" or origin != "spine"
+                fr = R.submit(dict(c, inproc="none"), 1, 3, "r") if c["inproc"] != "none" else None
+                futs.append((c, origin, fa, fb, R.submit(c2, 1, 3, "c") if with_other_seed else None, fr))
             preds = drv.ask_all([{"op": "predict", "cfg": lean_cfg(c), "rounds": len(c["batches"])} for c, _ in todo])
             models = drv.ask_all([model_request(c) for c, _ in todo])
 
-            for (c, origin, fa, fb, fc), pred, mod in zip(futs, preds, models):
-                ra, rb, rc = fa.result(), fb.result(), fc.result()
+            for (c, origin, fa, fb, fc, fr), pred, mod in zip(futs, preds, models):
+                ra, rb = fa.result(), fb.result()
+                rc = fc.result() if fc is not None else None
+                rr = fr.result() if fr is not None else None
                 case = {"cfg": case_cfg(c), "origin": origin}
                 ck.count("origin:" + origin)
                 for k in ("search", "sm", "acq", "mps", "design", "moo", "acq_opt", "transfer", "mode"):
                     if c["search"] in ("CBO", "EDS") or k in ("search", "mode"):
                         ck.count(f"{k}={c[k]}")
                 ck.count(f"space={c['space']}")
+                ck.count(f"inproc={c['inproc']}")
+                ck.count("route:" + ("ignored-failure" if c["fail_at"] and c["ff"] == "ignore" else "") + ("ask-again" if c["again"] else "")
+                         if (c["again"] or (c["fail_at"] and c["ff"] == "ignore")) else "route:plain")
                 ck.count("seed=" + (str(c["seed"]) if c["seed"] in UNUSUAL_SEEDS else "other"))
                 ck.count(f"cond={c['cond']}")
                 ck.count(f"nobj={c['nobj']}")
@@ -570,49 +658,70 @@ def run(ck):
                 if ra.get("np_global_touched"):
                     ck.count("observed:np-global-touched")
                 # ---- L3: the property
-                if not same:
+                twin_fail = twins_bad(ra) or twins_bad(rb) or (
+                    rr is not None and ra["status"] == "ok" and rr["status"] == "ok" and observable(ra)[1] != observable(rr)[1])
+                if twin_fail and same:
+                    # searches built from ONE problem object in one process disagree with each other / with the
+                    # same search run alone in a fresh interpreter
+                    ck.count("same-problem-searches-differ")
+                    if mod["same_outputs"]:
+                        ck.mismatch(case, "hand model: every search owns its generators (private copy of the problem); the implementation's "
+                                          "searches built from one problem object influence each other")
+                    key = ("twins",) + tuple(sorted(h["id"] for h in pred["hidden"]))
+                    differing.setdefault(key, []).append((c, case, ra, rb))
+                elif not same:
                     ck.count("pair-differs")
                     key = tuple(sorted(h["id"] for h in pred["hidden"])) or ("unknown",)
                     differing.setdefault(key, []).append((c, case, ra, rb))
-                elif ra["status"] == "ok" and ra["props"] and observable(ra)[1] == observable(rc)[1]:
+                elif rc is not None and ra["status"] == "ok" and ra["props"] and observable(ra)[1] == observable(rc)[1]:
                     ck.count("seeds-same")
                     seeds_same.append((c, case, ra))
                 else:
                     ck.count("pair-identical")
+                    if rc is not None:
+                        ck.count("other-seed-differs")
 
             # ---- failing configurations: one representative per set of table sites is diagnosed and shrunk
             def analyse(group):
                 group = sorted(group, key=lambda g: (len(nondefault(g[0])), sum(g[0]["batches"])))
-                return diagnose_and_shrink(ck, R, group[0][0])
+                return group[0][0]
 
             with ThreadPoolExecutor(max_workers=4) as gpool:
-                jobs = {key: gpool.submit(analyse, group) for key, group in differing.items()}
+                jobs = {key: gpool.submit(diagnose_and_shrink, ck, R, analyse(group), "twins" if key[0] == "twins" else "pair")
+                        for key, group in differing.items()}
                 for key, group in differing.items():
                     cur, hidden, sa, sb = jobs[key].result()
                     spred = drv.ask({"op": "predict", "cfg": lean_cfg(cur), "rounds": len(cur["batches"])})
                     clause = "depends-on-" + "+".join(hidden) if hidden else "differs-across-processes"
+                    if key[0] == "twins":
+                        clause = "same-problem-searches-differ"
                     fp = fingerprint(clause, spred["hidden"], cur)
                     shr = {"cfg": case_cfg(cur),
                            "hidden_inputs": hidden, "table_sites": spred["hidden"],
                            "also_failing": [g[1]["cfg"] for g in group][:8],
                            "envs": {"a": {"PYTHONHASHSEED": 1, "perturb": 3}, "b": {"PYTHONHASHSEED": 2, "perturb": 17}}}
                     for _ in group:
-                        ck.fail(fp, f"same seed {cur['seed']}, same options, two interpreters: proposal sequences differ "
+                        ck.fail(fp, (f"same seed {cur['seed']}, same options, {cur['twins']} searches built from one problem object in one "
+                                     f"process ({cur['inproc']}): proposal sequences differ") if key[0] == "twins" else
+                                    f"same seed {cur['seed']}, same options, two interpreters: proposal sequences differ "
                                     f"({', '.join(hidden) or 'process'})",
                                 shr, {"first_difference": first_diff(sa, sb),
                                       "lean_predict": {k: spred[k] for k in ("streams", "same_outputs")}})
             # ---- configurations whose proposals do not depend on the seed: shrunk (memoised by class + design)
             memo = {}
+            with ThreadPoolExecutor(max_workers=4) as gpool:
+                for c, case, ra in seeds_same:
+                    mk = (c["search"], c["design"], c["sm"])
+                    if mk not in memo:
+                        memo[mk] = gpool.submit(shrink_seeds_same, R, c)
             for c, case, ra in seeds_same:
-                mk = (c["search"], c["design"], c["sm"])
-                if mk not in memo:
-                    memo[mk] = shrink_seeds_same(R, c)
-                cur = memo[mk]
+                cur = memo[(c["search"], c["design"], c["sm"])].result()
                 ck.fail(fingerprint_seeds_same(cur),
                         f"{SEARCH_CLASS[cur['search']]}: seeds {cur['seed']} and {other_seed(cur['seed'])} give the same proposal sequence",
                         {"cfg": case_cfg(cur), "other_seed": other_seed(cur["seed"]),
                          "original_cfg": case["cfg"]}, {"proposals": ra["props"][:3]})
             ck.count("children-launched", R.launched)
+            ck.extra_cov["slowest_children_s"] = sorted(R.times, key=lambda t: -t[0])[:5]
     finally:
         R.close()
 
@@ -674,7 +783,13 @@ def replay(ck, case):
     if ra["status"] == "unavailable":
         print("replay: configuration not available on this tree:", ra["error"])
         return
-    if not same:
+    if same and (twins_bad(ra) or twins_bad(rb)):
+        bad = ra if twins_bad(ra) else rb
+        twin = next(t for t in bad["twins"] if t != bad["props"])
+        print("replay: searches built from one problem object differ:", json.dumps(first_diff(bad, dict(bad, props=twin))))
+        ck.fail(fingerprint("same-problem-searches-differ", pred["hidden"], cfg),
+                "same seed, same options, searches built from one problem object in one process: proposal sequences differ", case)
+    elif not same:
         hid = case.get("hidden_inputs") or []
         clause = "depends-on-" + "+".join(hid) if hid else "differs-across-processes"
         ck.fail(fingerprint(clause, pred["hidden"], cfg), "same seed, same options, two interpreters: proposal sequences differ", case, first_diff(ra, rb))
